@@ -619,7 +619,9 @@ def gen_update(g: Graph, rng, k, grad_on=frozenset()):
         return {"op": "grad", "target": t, "value": not (footprint(g, t) & grad_on)}
     if r < 0.22:
         for _ in range(20):
-            t = rng.choice(settable_ids(g))
+            # (not on simplex-valued leaves: editing one element leaves the simplex, and a later
+            # DirichletOperator would rightly refuse the value — that would be the harness's doing)
+            t = rng.choice([x for x in settable_ids(g) if x not in SIMPLEX and x != "mg_freqs"])
             if not (footprint(g, t) & grad_on):
                 return gen_reassign(g, rng, t)
     if r < 0.50:
